@@ -90,8 +90,9 @@ func c13Run(x *vmc.X, cfg vmc.Cfg) {
 	}
 	defer l.close()
 	a, b := kid.Peer("000", 1), kid.Peer("111", 1)
+	var connA *sim.Conn
 	if c.dialled {
-		l.h.AddConn(a, network.DirOutbound, nil)
+		connA = l.h.AddConn(a, network.DirOutbound, nil)
 		l.h.AddConn(b, network.DirOutbound, nil)
 	}
 	check := func(where string, want mode) bool {
@@ -116,6 +117,12 @@ func c13Run(x *vmc.X, cfg vmc.Cfg) {
 		var inbound []*sim.Stream
 		oc := l.h.AddConn(kid.Peer("101", 1), network.DirOutbound, nil)
 		outLocal, _ := sim.NewStreamPair(oc, c09Proto, network.DirOutbound)
+		// the connection that will carry the inbound streams also carries an outbound DHT stream of the node
+		// itself, opened first (the demotion sweep meets it before the inbound ones)
+		if connA == nil {
+			connA = l.h.AddConn(a, network.DirInbound, nil)
+		}
+		outSame, _ := sim.NewStreamPair(connA, c09Proto, network.DirOutbound)
 		for step := 0; step < 4; step++ {
 			i := x.Choose(len(events)+2, vmc.Free, "event")
 			if i == len(events)+1 {
@@ -156,7 +163,7 @@ func c13Run(x *vmc.X, cfg vmc.Cfg) {
 				}
 				inbound = nil
 			}
-			if outLocal.IsReset() {
+			if outLocal.IsReset() || outSame.IsReset() {
 				x.Failf("C13/outbound-stream-reset", "an outbound stream was reset by a mode switch")
 				return
 			}
